@@ -48,6 +48,8 @@ def shape_key(case):
 
 def shrink_candidates(case):
     """Smaller valid variants of a checker case."""
+    if "levels" not in case:
+        return
     for c in _shrink_candidates(case):
         if genck.valid(c):
             yield c
